@@ -2,6 +2,7 @@
 import itertools
 import math
 from collections import Counter
+from fractions import Fraction
 
 import numpy as np
 import pandas as pd
@@ -26,7 +27,8 @@ RULE = ("collections of 2-40 strings over small alphabets (distance 0 has multip
         "[0,1) == sum n_i(n_i-1)/2; default metric by input type/columns; maxseqs: total count == C(m,2) (m1*m2) with "
         "m=min(N,maxseqs) and, for N<=9, the histogram is one of the histograms of all size-m sub-multisets; background table: "
         "bins == arange(rows+1) and pcDelta output aligns row by row. Tolerance 1e-12. Non-trivial: >= 3 distinct distances and "
-        "(a distance beyond the last edge, or pseudocount > 0, or normalize=False, or a second collection).")
+        "(a distance beyond the last edge, or pseudocount > 0, or normalize=False, or a second collection)."
+        " Also: bins=0 on every generated table == pc of the same arguments == exact fraction of coinciding whole rows; maxseqs at scale (200-40,000 distinct sequences, 100-400 kept): no pair at distance 0 and exactly C(m,2) / m*m pairs.")
 ASSUMPTIONS = ["float comparisons use relative tolerance 1e-12; counts are compared exactly",
                "the sub-multiset oracle for maxseqs does not assume how the code consumes NumPy's RNG"]
 
@@ -240,6 +242,21 @@ def check_tcr(case, rec):
         tup = ([r[0] for r in rows], [r[1] for r in rows])
         got2 = call("pcDelta-tuple", pyrepseq.pcDelta, tup, bins=list(edges), normalize=normalize, pseudocount=pseudo)
         cmp_hist("tuple-histogram", got2, want, normalize, "legacy (alpha, beta) tuple")
+    # bins=0 on tables: pc of the SAME arguments, i.e. whole rows (every column), not of the columns the metric compares
+    keys1 = [tuple(str(x) for x in r) for r in df.itertuples(index=False, name=None)]
+    if df2 is None:
+        cnt = Counter(keys1)
+        exact0 = Fraction(sum(c * (c - 1) for c in cnt.values()), len(keys1) * (len(keys1) - 1))
+    else:
+        keys2 = [tuple(str(x) for x in r) for r in df2.itertuples(index=False, name=None)]
+        c1, c2 = Counter(keys1), Counter(keys2)
+        exact0 = Fraction(sum(c * c2.get(k, 0) for k, c in c1.items()), len(keys1) * len(keys2))
+    p0 = call("pcDelta0-table", pyrepseq.pcDelta, df, df2, bins=0, **kw)
+    pcv = call("pc-table", pyrepseq.pc, df, df2)
+    if not close(float(p0), float(pcv), 1e-12):
+        raise Violation("bins0-vs-pc", f"table cols={list(df.columns)}: pcDelta(bins=0) = {p0!r}, pc of the same arguments = {pcv!r}")
+    if not close(float(p0), exact0, 1e-12):
+        raise Violation("bins0-value", f"table cols={list(df.columns)}: pcDelta(bins=0) = {p0!r}, exact fraction of coinciding rows = {exact0}")
     if not before.equals(df):
         raise Violation("pcDelta-mutates-input", "table changed")
     # maxseqs on tables: a subset of rows
@@ -290,6 +307,43 @@ def check_sizes(case, rec):
             if edges[b] <= dist < edges[b + 1] or (last and dist == edges[-1]):
                 want[b] += cnt
     cmp_hist("sizes-histogram", got, want, False, f"n={n} n2={n2}")
+
+
+def check_maxseqs_large(case, rec):
+    """maxseqs far below the collection size (N >= 20 * maxseqs and beyond): the histogram is that of maxseqs DISTINCT positions.
+    All N strings are different, so a position drawn twice is the only way to see a pair at distance 0."""
+    n, m, seed = case["n"], case["maxseqs"], case["np_seed"]
+    seqs = [G.codeword(i, 1) for i in range(n)] if case.get("codewords") else ["CAS" + format(i, "05d").translate(DIGITS) + "F" for i in range(n)]
+    rec.note(case, n >= 20 * m and m >= 100, [f"n={n}", f"m={m}", case["container"], "two" if case.get("two") else "one"])
+    a = G.materialise(seqs, case["container"])
+    np.random.seed(seed)
+    if case.get("two"):
+        other = G.materialise(["CAW" + s[3:] for s in seqs], case["container"])
+        got = call("pcDelta-maxseqs", pyrepseq.pcDelta, a, other, bins=[0, 1, 10 ** 6], normalize=False, maxseqs=m)
+        # cross pairs: distance >= 1 always (third letter differs); distinct positions on both sides => at most m pairs at distance 1
+        tot = int(np.sum(got))
+        if tot != m * m:
+            raise Violation("maxseqs-size", f"two collections of {n}, maxseqs={m}: {tot} pairs counted, expected {m * m}")
+        if int(got[0]) != 0:
+            raise Violation("maxseqs-not-a-subsample", f"two collections of {n}, maxseqs={m}: {int(got[0])} cross pairs at distance 0")
+        return
+    got = call("pcDelta-maxseqs", pyrepseq.pcDelta, a, bins=[0, 1, 10 ** 6], normalize=False, maxseqs=m)
+    tot = int(np.sum(got))
+    if tot != m * (m - 1) // 2:
+        raise Violation("maxseqs-size", f"N={n} maxseqs={m}: {tot} pairs counted, expected {m * (m - 1) // 2}")
+    if int(got[0]) != 0:
+        raise Violation("maxseqs-not-a-subsample", f"N={n} distinct sequences, maxseqs={m}: {int(got[0])} pairs at distance 0 - some position was drawn more than once")
+
+
+DIGITS = str.maketrans("0123456789", "ACDEGHIKLM")
+
+
+@st.composite
+def maxseqs_large_case(draw, tier="quick"):
+    m = draw(st.sampled_from([100, 150, 200, 300, 400]))
+    n = m * draw(st.sampled_from([2, 5, 19, 20, 21, 40, 100]))
+    return {"n": n, "maxseqs": m, "np_seed": draw(st.integers(0, 2 ** 31 - 1)), "container": draw(st.sampled_from(["list", "ndarray", "series_str"])),
+            "two": draw(st.integers(0, 3)) == 0}
 
 
 def enum_sizes(tier):
@@ -406,6 +460,7 @@ SUBS = [
     Sub("strings", check_strings, strategy=lambda t: strings_case(t), budget=(2500, 25000)),
     Sub("maxseqs", check_maxseqs, strategy=lambda t: maxseqs_case(t), budget=(800, 8000)),
     Sub("tcr_tables", check_tcr, strategy=lambda t: tcr_case(t), budget=(800, 8000)),
+    Sub("maxseqs_large", check_maxseqs_large, strategy=lambda t: maxseqs_large_case(t), budget=(60, 600)),
     Sub("block_boundary_sizes", check_sizes, enum=enum_sizes),
     Sub("background", check_background, strategy=lambda t: background_case(t), budget=(100, 600)),
 ]
